@@ -43,10 +43,10 @@ def _alarm_handler(signum, frame):
 class Case:
     """One whole assembly: ISA definition, source files, command-line options."""
     __slots__ = ('isa', 'files', 'main', 'start', 'end', 'fill', 'pretty', 'incdirs', 'defines',
-                 'binary', 'preseed', 'tag', 'isa_yaml')
+                 'binary', 'preseed', 'tag', 'isa_yaml', 'isa_file')
 
     def __init__(self, isa, files, main='main.asm', start=0, end=None, fill=0, pretty=None,
-                 incdirs=(), defines=(), binary=True, preseed=False, tag=None, isa_yaml=False):
+                 incdirs=(), defines=(), binary=True, preseed=False, tag=None, isa_yaml=False, isa_file=None):
         self.isa = isa
         self.files = files if isinstance(files, dict) else {main: files}
         self.main = main
@@ -60,20 +60,21 @@ class Case:
         self.preseed = preseed
         self.tag = tag
         self.isa_yaml = isa_yaml
+        self.isa_file = isa_file          # base name of the definition file (default isa.json / isa.yaml)
 
     def to_json(self):
         return {
             'isa': self.isa, 'files': self.files, 'main': self.main, 'start': self.start,
             'end': self.end, 'fill': self.fill, 'pretty': self.pretty, 'incdirs': list(self.incdirs),
             'defines': list(self.defines), 'binary': self.binary, 'preseed': self.preseed,
-            'tag': self.tag, 'isa_yaml': self.isa_yaml,
+            'tag': self.tag, 'isa_yaml': self.isa_yaml, 'isa_file': self.isa_file,
         }
 
     @classmethod
     def from_json(cls, d):
         return cls(d['isa'], d['files'], d.get('main', 'main.asm'), d.get('start', 0), d.get('end'),
                    d.get('fill', 0), d.get('pretty'), d.get('incdirs', ()), d.get('defines', ()),
-                   d.get('binary', True), d.get('preseed', False), d.get('tag'), d.get('isa_yaml', False))
+                   d.get('binary', True), d.get('preseed', False), d.get('tag'), d.get('isa_yaml', False), d.get('isa_file'))
 
 
 class Outcome:
@@ -160,11 +161,11 @@ def _materialize(case: Case, root: str):
     if case.isa_yaml:
         import yaml
         _int_keys(case.isa)
-        cfg = os.path.join(root, 'isa.yaml')
+        cfg = os.path.join(root, case.isa_file or 'isa.yaml')
         with open(cfg, 'w') as f:
             yaml.safe_dump(case.isa, f)
     else:
-        cfg = os.path.join(root, 'isa.json')
+        cfg = os.path.join(root, case.isa_file or 'isa.json')
         blob = case.isa if isinstance(case.isa, str) else json.dumps(case.isa)
         if _last_isa_written.get(cfg) != blob:
             with open(cfg, 'w') as f:
